@@ -42,6 +42,7 @@ EDIT_CLASSES = [
     # to matter it has to enter the key as well)
     # a whole source file (with a command) appears / disappears; the element type of an array-typed parameter (rendered
     # `unknown` whatever the element: a silent edit today)
+    ("param_becomes_channel", False, "CommandHashData", "channels"),
     ("extra_file", False, "CommandHashData", "name"),
     ("array_param_elem", False, "ParameterHashData", "array_element"),
     ("channel_serde_rename", False, "ChannelHashData", "serde_rename"),
@@ -66,7 +67,7 @@ def alt(v, options):
 
 def render_sources(st):
     g = lambda a: st.get(a, 0)
-    field_attr = alt(g("field_serde_rename"), ["", '    #[serde(rename = "displayName")]\n', '    #[serde(rename = "label")]\n'])
+    field_attr = alt(g("field_serde_rename"), ["", '    #[serde(rename = "displayName")]\n', '    #[serde(rename = "label")]\n', '    #[serde(rename = "user_name")]\n'])
     validator = alt(g("validator"), ["", '    #[validate(length(min = 1, max = 20, message = "short"))]\n',
                                      '    #[validate(length(min = 2, max = 30, message = "other text"))]\n'])
     rename_all = alt(g("struct_rename_all"), ["", '#[serde(rename_all = "camelCase")]\n', '#[serde(rename_all = "SCREAMING_SNAKE_CASE")]\n'])
@@ -100,7 +101,7 @@ def render_sources(st):
         "#[derive(Debug, Clone, Default, Serialize, Deserialize)]\npub struct AuditDetail {\n    pub flag: %s,\n}\n\n" % (audit_ty, detail_ty)
     )
     p1 = "%s%s: %s" % (pattr, pname, pty)
-    p2 = "verbose_flag: bool"
+    p2 = alt(g("param_becomes_channel"), ["verbose_flag: bool, sink: Status", "verbose_flag: bool, sink: Channel<Status>"])
     plist = "%s, %s" % ((p1, p2) if g("param_order") % 2 == 0 else (p2, p1))
     main_cmd = (
         "#[tauri::command]\n%spub %sfn %s(%s, %son_event: Channel<%s>) -> Result<%s, String> {\n    todo!()\n}\n\n"
